@@ -1626,6 +1626,50 @@ pub fn run(a: &Args) {
             ));
         }
     }
+    // ids with a dot at either end are ids like any other: what is loaded under "a." is found
+    // under "a." and not under "a"
+    for kind in [FeKind::CacheNoHot, FeKind::Local, FeKind::Hot, FeKind::CacheNoHotAny] {
+        if (mode == "cold" && kind.hot()) || (mode == "hot" && !kind.hot()) {
+            continue;
+        }
+        corpus.push((
+            kind,
+            vec![
+                Op::Write("a.".into(), "x".into(), Content::Bytes(b"5".to_vec())),
+                Op::Write(".b".into(), "x".into(), Content::Bytes(b"6".to_vec())),
+                Op::Load(Ty::I, "a.".into()),
+                Op::Contains(Ty::I, "a.".into()),
+                Op::Contains(Ty::I, "a".into()),
+                Op::GetCached(Ty::I, "a.".into()),
+                Op::Load(Ty::I, "a".into()),
+                Op::Load(Ty::I, ".b".into()),
+                Op::GetCached(Ty::I, "b".into()),
+                Op::GetCached(Ty::I, ".b".into()),
+                Op::Load(Ty::I, "a.".into()),
+            ],
+        ));
+    }
+    // a Compound that tolerates the failure of a nested load still depends on what it asked for:
+    // once the child exists, is loaded and changes, the parent follows
+    if mode != "cold" {
+        for kind in [FeKind::Hot, FeKind::HotAny] {
+            corpus.push((
+                kind,
+                vec![
+                    Op::Write("n1".into(), "n".into(), Content::Script(vec![Line::Val(10), Line::Try(Box::new(Line::Load(Ty::I, "c".into())))])),
+                    Op::Load(Ty::N, "n1".into()),
+                    Op::Write("c".into(), "x".into(), Content::Bytes(b"1".to_vec())),
+                    Op::Load(Ty::I, "c".into()),
+                    Op::HotReload,
+                    Op::Write("c".into(), "x".into(), Content::Bytes(b"2".to_vec())),
+                    Op::Notify(vec![(true, "c".into(), "x".into())]),
+                    Op::HotReload,
+                    Op::GetCached(Ty::N, "n1".into()),
+                    Op::GetCached(Ty::I, "c".into()),
+                ],
+            ));
+        }
+    }
     let n_corpus = corpus.len();
     for i in 0..(n_cases + n_corpus) {
         let kinds: &[FeKind] = match mode.as_str() {
